@@ -158,6 +158,9 @@ func genService(r *rand.Rand, tbl []mDef, idx int) []mDef {
 			// interface sets may differ between services
 			if len(c.Ifaces) > 1 && r.Intn(3) == 0 {
 				c.Ifaces = c.Ifaces[:1]
+			} else if len(c.Ifaces) > 1 && r.Intn(2) == 0 {
+				// the same interfaces written in another order
+				c.Ifaces = []string{c.Ifaces[1], c.Ifaces[0]}
 			}
 			if r.Intn(3) == 0 {
 				c.Desc = fmt.Sprintf("%s as service %d sees it", d.Name, idx)
